@@ -581,6 +581,9 @@ func verifyResponse(q rpcRequest, res *jResult, w *world, blocks []headInfo, cou
 		ld := res.ContractsProof.Leaves[i]
 		if cs == nil {
 			counts("rpc.contract_absence_proofs", 1)
+			if ld == nil {
+				counts("rpc.null_leaf_data_for_absent_contract", 1)
+			}
 			if !v.IsZero() {
 				return "rpc:contract-proof-proves-leaf-for-absent-contract", fmt.Sprintf("contract %s does not exist, proof yields %s", hx(a), v.String())
 			}
